@@ -172,6 +172,9 @@ func (fc *FuncCtx) computeRoots() {
 						continue
 					}
 				}
+				if rangeElemCopy(al) != nil {
+					continue
+				}
 				nm := al.Comment
 				if nm == "" || nm == "complit" || nm == "new" || nm == "varargs" || nm == "slicelit" || nm == "makeslice" {
 					nm = al.Name()
@@ -234,6 +237,12 @@ func isInduction(v ssa.Value) bool {
 				return true
 			}
 			return false
+		case *ssa.Call:
+			// the index slices.Index / slices.IndexFunc selected: "the element found"
+			if sc := x.Call.StaticCallee(); sc != nil && (strings.HasPrefix(sc.String(), "slices.Index[") || strings.HasPrefix(sc.String(), "slices.IndexFunc[")) {
+				return true
+			}
+			return false
 		default:
 			return false
 		}
@@ -252,8 +261,40 @@ func (fc *FuncCtx) AP(v ssa.Value) string {
 	fc.apBusy[v] = true
 	s := fc.ap0(v)
 	delete(fc.apBusy, v)
+	// fields of a parameter object that a rule has named by their role (see AliasSlots)
+	for from, to := range fc.alias {
+		if s == from {
+			s = to
+		} else if strings.HasPrefix(s, from+"[") || strings.HasPrefix(s, from+".") {
+			s = to + s[len(from):]
+		}
+	}
 	fc.apMemo[v] = s
 	return s
+}
+
+// AliasSlots: names the fields of an unexported struct parameter (a parameter object) of fc.Fn by the type-based role
+// names the rules use for plain parameters ("now", "ids", "sigreq", ...), so that grouping parameters into a struct
+// leaves the atoms unchanged.
+func (fc *FuncCtx) AliasSlots(names map[string]string) {
+	for ts, name := range names {
+		slot, ok := slotOf(fc.Fn, func(t types.Type) bool {
+			return types.TypeString(t, func(pk *types.Package) string { return pk.Name() }) == ts
+		})
+		if !ok || slot.Field < 0 {
+			continue
+		}
+		v := slotValueIn(fc.Fn, slot)
+		if v == nil {
+			continue
+		}
+		if fc.alias == nil {
+			fc.alias = map[string]string{}
+		}
+		delete(fc.apMemo, v)
+		from := fc.ap0(v)
+		fc.alias[from] = name
+	}
 }
 
 func (fc *FuncCtx) uniq(kind string, v ssa.Value) string {
@@ -281,6 +322,10 @@ func (fc *FuncCtx) ap0(v ssa.Value) string {
 			if _, isP := sv.(*ssa.Parameter); isP {
 				return fc.AP(sv)
 			}
+		}
+		// the per-iteration copy of a range element (whose address may be kept): named by the element
+		if sv := rangeElemCopy(x); sv != nil {
+			return fc.AP(sv)
 		}
 		return fc.rootName(v)
 	case *ssa.Global:
@@ -580,6 +625,31 @@ func sortedKeys[V any](m map[string]V) []string {
 	}
 	sort.Strings(ks)
 	return ks
+}
+
+// rangeElemCopy: al is assigned exactly once, as a whole, from an element selected by a loop index (the loop
+// variable of a range-by-value loop, or an explicit per-iteration copy); returns that element load.
+func rangeElemCopy(al *ssa.Alloc) ssa.Value {
+	var sv ssa.Value
+	n := 0
+	for _, r := range *al.Referrers() {
+		if st, ok := r.(*ssa.Store); ok && st.Addr == ssa.Value(al) {
+			sv = st.Val
+			n++
+		}
+	}
+	if n != 1 {
+		return nil
+	}
+	ld, ok := sv.(*ssa.UnOp)
+	if !ok || ld.Op != token.MUL {
+		return nil
+	}
+	ia, ok := ld.X.(*ssa.IndexAddr)
+	if !ok || !isInduction(ia.Index) {
+		return nil
+	}
+	return sv
 }
 
 func storeOf(al *ssa.Alloc) *ssa.Store {
